@@ -221,7 +221,8 @@ class SecondsTimedeltaProvider(MorphingProvider):
             if type(data) not in ok_types:
                 raise TypeLoadError(Union[int, float, Decimal], data)
             try:
-                return timedelta(seconds=int(data), microseconds=int(data % 1 * 10 ** 6))
+                seconds = int(data)
+                return timedelta(seconds=seconds, microseconds=round((data - seconds) * 10 ** 6))
             except (ValueError, ArithmeticError) as e:
                 raise ValueLoadError(str(e), data)
 
